@@ -28,6 +28,18 @@ CHECKS = {
 
 NOT_APPLICABLE = []
 
+CHECKS['C07'] = (
+    'bounded exploration of real engine runs of a with-items task on minidb: '
+    'item count, concurrency (absent / literal / expression), every item '
+    'outcome, completion order, rerun reset flag and new outcomes are solver '
+    'variables; invariants after every delivery',
+    'For 0..3 (thorough 0..4) items: never more RUNNING items than the '
+    'concurrency, no index running or accepted twice, completion only after '
+    'all items; one accepted result per item, results in item order, ERROR '
+    'iff an item failed, empty list succeeds at once; a rerun re-executes '
+    'all items (reset) or exactly the failed ones.',
+    '§3 C07')
+
 CHECKS['C03'] = (
     'symbolic execution of the transition table and of the compare-and-swap '
     'state updates (criterion taken from the SQLAlchemy / oslo.db tree over a '
